@@ -6,7 +6,7 @@
    Proofs/OwnP.v.  [own_decode md S p fuel t s] : (outcome, leaked); md = MSync / MAsync are the two template
    instances (decode / decode_async); p ranges over binary, binary-LE, compact; the input state [s] ranges over
    ALL byte strings (every truncation and every corruption is an instance) and all reader contexts. *)
-From PVGen Require Import Gen GenSpec GenAsync Own Proofs.OwnP.
+From PVGen Require Import Gen GenSpec GenKeep GenAsync Own Proofs.OwnP.
 Open Scope Z_scope.
 
 (* tie to the source: the unsafe / set_len / as_mut_ptr / mem::forget / from_raw_parts counts regenerated from
@@ -87,3 +87,16 @@ Theorem C19_leak_exact_flat : forall S p f t et s,
     snd (own_decode MSync S p (Datatypes.S f) t s) = xs.
 Proof. exact list_leak_exact_flat. Qed.
 Print Assumptions C19_leak_exact_flat.
+
+(* ---------- builds with keep_unknown_fields: the sync templates with retention (GenKeep.gen_decode_keep) ---------- *)
+(* `_unknown_fields`, the retained chunks and the `_UnknownFields` variant are owned: the only leaking clause is again
+   the list arm; what changes is the set of element types that need Drop (every struct / union compiled with
+   retention holds a LinkedBytes): owns_heap_keep, no_heap_list_keep *)
+Theorem C19_erase_keep : forall S p f t s, fst (own_decode_keep S p f t s) = gen_decode_keep S p f t s.
+Proof. exact own_proj_keep. Qed.
+Print Assumptions C19_erase_keep.
+
+Theorem C19_no_leak_keep_partial : forall S t, no_heap_list_keep S t ->
+  forall p f s, snd (own_decode_keep S p f t s) = [].
+Proof. exact no_leak_keep_partial. Qed.
+Print Assumptions C19_no_leak_keep_partial.
